@@ -393,6 +393,10 @@ func (rt *runtime) cmplEvaluateNodeSwitchStatement(node *nodeSwitchStatement) Va
 				case valueResult:
 					switch value.evaluateBreak(labels) {
 					case resultReturn:
+						// 12.11: an abrupt completion leaves the switch with the value accumulated so far
+						if !result.isEmpty() && value.resultValue().isEmpty() {
+							return value.withResultValue(result)
+						}
 						return value
 					case resultBreak:
 						if carried := value.resultValue(); !carried.isEmpty() {
